@@ -8,8 +8,8 @@ def gn (j : Json) (k : String) : Nat := (j.getObjValD k).getNat?.toOption.getD 0
 
 def repOf (j : Json) : Rep :=
   { pathName := gn j "pn", pathTarget := gn j "pt", owner := gn j "ow", pFirst := gi j "pf", pLast := gi j "pl",
-    rFirst := gi j "rf", rLast := gi j "rl", ruleKind := gn j "rk", reporter := gn j "rp", summary := gn j "su",
-    details := gn j "id", sev := gn j "sv",
+    rFirst := gi j "rf", rLast := gi j "rl", ruleName := gn j "rn", ruleKind := gn j "rk", reporter := gn j "rp", summary := gn j "su",
+    details := gn j "de", anchor := gn j "an", sev := gn j "sv",
     diags := match j.getObjValD "dg" with
       | .arr a => a.toList.map fun d => ⟨gi d "f", gi d "l", gn d "m"⟩
       | _ => [] }
@@ -19,7 +19,12 @@ def streamOf (js : String) : Option (List Rep) :=
   | .ok (.arr a) => some (a.toList.map repOf)
   | _ => none
 
-/-- op: pipeline <json stream> → id:dup:[dups];…   (id is carried in `details`) -/
+/-- everything the model knows about a report, as text -/
+def keyOf (r : Rep) : String :=
+  s!"{r.pathName}.{r.pathTarget}.{r.owner}.{r.pFirst}.{r.pLast}.{r.rFirst}.{r.rLast}.{r.ruleName}.{r.ruleKind}.{r.reporter}.{r.summary}.{r.details}.{r.anchor}.{r.sev}[" ++
+    String.intercalate "|" (r.diags.map fun d => s!"{d.firstCol},{d.lastCol},{d.msg}") ++ "]"
+
+/-- op: pipeline <json stream> → key:dup:key+key;…   (reports that are equal in every field are interchangeable) -/
 def pipelineOp (args : List String) : String :=
   match args with
   | [js] => match streamOf js with
@@ -28,7 +33,7 @@ def pipelineOp (args : List String) : String :=
       let out := pipeline st
       let sorted := out.map (·.1)
       String.intercalate ";" (out.map fun (r, m) =>
-        s!"{r.details}:{if m.isDup then 1 else 0}:" ++ String.intercalate "," (m.dups.map fun j => toString ((sorted.getD j default).details)))
+        s!"{keyOf r}:{if m.isDup then 1 else 0}:" ++ String.intercalate "+" (m.dups.map fun j => keyOf (sorted.getD j default)))
   | _ => "bad-op"
 
 /-- op: monitor <json stream> → E=<0|1> Ord=<0|1> -/
